@@ -306,8 +306,10 @@ template <class Data, int NV, class Rhs, int NR> void runRows(long kk, uint64_t 
     constexpr int D = 3;
     using Real = Data;   // coordinates are stored in the data rows; keep them exactly representable
     using Space = tbx::Morton<Real, D, false>;
-    using Cell = std::array<long, 1>;
-    using Tree = TbfTree<Real, Data, NV, Rhs, NR, Cell, Cell, Space>;
+    using CellM = std::array<Data, NR + 1>;    // multipole and local parts of different byte sizes
+    using CellL = std::array<Rhs, NV + 2>;
+    using Tree = TbfTree<Real, Data, NV, Rhs, NR, CellM, CellL, Space>;
+    using CellGroup = typename Tree::CellGroupClass;
     using Group = typename Tree::LeafGroupClass;
     vh::Rng r(vh::mix(seed ^ 0xC14C, uint64_t(kk) * 16 + NV * 4 + NR));
     const long H = r.range(1, 4);
@@ -359,6 +361,35 @@ template <class Data, int NV, class Rhs, int NR> void runRows(long kk, uint64_t 
         checkGroup(view, cp[0].first, cp[0].second, cp[1].first, cp[1].second, "view");
     }
     for (auto& c : copies) free(c.first);
+    // cell groups: recognisable content in every component, then byte-copied views through both view constructors
+    tree.applyToAllCells([&](long L, auto& hdr, auto& m, auto& l) {
+        for (size_t q = 0; q < m->get().size(); ++q) m->get()[q] = Data(1 + (hdr.spaceIndex * 7 + long(q) * 3 + L) % 1000);
+        for (size_t q = 0; q < l->get().size(); ++q) l->get()[q] = Rhs(2 + (hdr.spaceIndex * 5 + long(q) * 11 + L) % 1000);
+    });
+    long cellViews = 0;
+    for (long L = 0; L < H; ++L) for (auto& g : tree.getCellGroupsAtLevel(L)) {
+        auto ps = g.getDataPtrsAndSizes();
+        std::array<std::pair<unsigned char*, size_t>, 3> cp;
+        for (int b = 0; b < 3; ++b) { unsigned char* c = static_cast<unsigned char*>(malloc(ps[size_t(b)].second ? ps[size_t(b)].second : 1)); memcpy(c, ps[size_t(b)].first, ps[size_t(b)].second); cp[size_t(b)] = {c, ps[size_t(b)].second}; }
+        auto checkView = [&](CellGroup& v, const char* how) {
+            if (v.getNbCells() != g.getNbCells() || v.getStartingSpacialIndex() != g.getStartingSpacialIndex() || v.getEndingSpacialIndex() != g.getEndingSpacialIndex()) { res.fail("c14:cell-view-header", std::string(how) + " level " + vh::str(L)); return; }
+            for (long i = 0; i < g.getNbCells(); ++i) {
+                if (v.getCellSpacialIndex(i) != g.getCellSpacialIndex(i)) res.fail("c14:cell-view-accessor", std::string(how) + " level " + vh::str(L) + " cell " + vh::str(i));
+                const unsigned char* m = reinterpret_cast<const unsigned char*>(&v.getCellMultipole(i)); const unsigned char* l = reinterpret_cast<const unsigned char*>(&v.getCellLocal(i));
+                const bool mIn = m >= cp[1].first && m + sizeof(CellM) <= cp[1].first + cp[1].second, lIn = l >= cp[2].first && l + sizeof(CellL) <= cp[2].first + cp[2].second;
+                if (!mIn) res.fail("c14:cell-view-multipole-outside", std::string(how) + " level " + vh::str(L) + " cell " + vh::str(i));
+                if (!lIn) res.fail("c14:cell-view-local-outside", std::string(how) + " level " + vh::str(L) + " cell " + vh::str(i));
+                if (mIn && std::memcmp(m, &g.getCellMultipole(i), sizeof(CellM)) != 0) res.fail("c14:cell-view-multipole-value", std::string(how) + " level " + vh::str(L) + " cell " + vh::str(i));
+                if (lIn && std::memcmp(l, &g.getCellLocal(i), sizeof(CellL)) != 0) res.fail("c14:cell-view-local-value", std::string(how) + " level " + vh::str(L) + " cell " + vh::str(i));
+            }
+            ++cellViews;
+        };
+        { CellGroup v(cp); checkView(v, "array-constructor view"); }
+        { CellGroup v(cp[0].first, cp[0].second, cp[1].first, cp[1].second, cp[2].first, cp[2].second); checkView(v, "pointer/size-constructor view"); }
+        { CellGroup v(cp); CellGroup w(std::move(v)); checkView(w, "moved view"); }
+        for (auto& c : cp) free(c.first);
+    }
+    res.ev("cell-group-views-checked", cellViews);
     // every result row written through the operators' pointers must be read back through applyToAllLeaves
     if constexpr (NR > 0) {
         TbfAlgorithm<Real, RowKernel<Real, Space>, Space> algo(cfg, 2);
